@@ -3,6 +3,7 @@
 # Rebuilds the checker (cached, <1 s) and runs one property check against /repo's current working tree.
 set -u
 cd "$(dirname "$0")"
+mkdir -p bin evidence
 export GOFLAGS=-mod=mod GOPROXY=off GOTOOLCHAIN=local
 if ! go build -o bin/vcheck ./cmd/vcheck 2>bin/build.err; then
   cat bin/build.err >&2
